@@ -490,6 +490,20 @@ def derivedCase (fields : List String) : String :=
       | some t => s!"{k}={hexStr (Derived.text t).toList}"
       | none => s!"{k}=!")
 
+/-- `condverdict c=1 e=nonzero` : a condition command that ended with exit status 0 / another exit status / no exit
+status, with the run cancelled by then or not. Answer: what is observed of the task or stage - `ran` (its commands ran),
+`skipped`, or `error` (also a task that goes on after a cancellation: its commands refuse to start) -/
+def condverdictCase (fields : List String) : String :=
+  let c := kv fields "c" == "1"
+  let e : Cancel.CondEnd := match kv fields "e" with
+    | "zero" => .zero
+    | "nonzero" => .nonzero
+    | _ => .killed
+  match Cancel.condVerdict c e with
+  | .proceed => if c then "error" else "ran"
+  | .skipped => "skipped"
+  | .error => "error"
+
 /-- `envfile 413d62,,433d64` : comma-separated hex of each line (ASCII) -/
 def envfileCase (fields : List String) : String :=
   let lines : List (List Char) := ((fields.getD 0 "").splitOn ",").map fun h => (hexBytes h.toList).map Char.ofNat
@@ -595,6 +609,7 @@ def handle (line0 : String) : String :=
   | "unify" :: rest => unifyCase rest
   | "varsops" :: rest => varsopsCase rest
   | "derived" :: rest => derivedCase rest
+  | "condverdict" :: rest => condverdictCase rest
   | "native" :: _ => nativeCase
   | "glob" :: rest => globCase rest
   | "select" :: rest => selectCase rest
